@@ -6,6 +6,10 @@
 (*   C    : same seeds and parameters, progress bar on                      *)
 (*   D    : every seed + 1 (adjacent seeds, including 0 -> 1)               *)
 (*   E    : every seed + 2^32 (seeds that differ only in the high word)     *)
+(*   F    : same seeds and parameters, but the configurations were run in   *)
+(*          reverse order and each twice in a row in that process, the      *)
+(*          second run being the one written (a simulation must not depend  *)
+(*          on what the process did before)                                 *)
 (* Each file is the concatenation of the runs of all configurations, every  *)
 (* run introduced by a "config" line.  A simulation is a function of seed   *)
 (* and parameters iff A = B = C line for line; and the seed matters iff     *)
@@ -18,6 +22,7 @@ B == ndJsonDeserialize(IOEnv.TRACE2)
 C == ndJsonDeserialize(IOEnv.TRACE3)
 D == ndJsonDeserialize(IOEnv.TRACE4)
 E == ndJsonDeserialize(IOEnv.TRACE5)
+F == ndJsonDeserialize(IOEnv.TRACE6)
 
 FirstDiff(X, Y) ==
   LET n == IF Len(X) <= Len(Y) THEN Len(X) ELSE Len(Y)
@@ -36,7 +41,7 @@ Seg(X, k) ==
 
 NRuns == Cardinality(Marks(A))
 
-SameSeedSame == FirstDiff(A, B) = 0 /\ FirstDiff(A, C) = 0
+SameSeedSame == FirstDiff(A, B) = 0 /\ FirstDiff(A, C) = 0 /\ FirstDiff(A, F) = 0
 \* a run with at least 20 orders cannot plausibly coincide under two seeds (tiny runs can: they are not judged)
 Orders(X) == Len(SelectSeq(X, LAMBDA e : e.op = "order"))
 Substantial(k) == Orders(Seg(A, k)) >= 20
@@ -55,8 +60,9 @@ Verdict ==
     THEN PrintT(<<"ACCEPTED", Len(A)>>) /\ PrintT(<<"SUBSTANTIAL", Cardinality({k \in 1..NRuns : Substantial(k)})>>)
     ELSE PrintT(<<"TRACE-REJECT", ToJson([why |-> IF ~SameSeedSame THEN "same seed, different outcome"
                                                  ELSE "a different seed gave the same outcome",
-                                         at_AB |-> FirstDiff(A, B), at_AC |-> FirstDiff(A, C),
+                                         at_AB |-> FirstDiff(A, B), at_AC |-> FirstDiff(A, C), at_AF |-> FirstDiff(A, F),
                                          line_A |-> IF FirstDiff(A, B) # 0 /\ FirstDiff(A, B) <= Len(A) THEN A[FirstDiff(A, B)]
-                                                    ELSE IF FirstDiff(A, C) # 0 /\ FirstDiff(A, C) <= Len(A) THEN A[FirstDiff(A, C)] ELSE [op |-> "none"],
+                                                    ELSE IF FirstDiff(A, C) # 0 /\ FirstDiff(A, C) <= Len(A) THEN A[FirstDiff(A, C)]
+                                                    ELSE IF FirstDiff(A, F) # 0 /\ FirstDiff(A, F) <= Len(A) THEN A[FirstDiff(A, F)] ELSE [op |-> "none"],
                                          same_as_A_with_seed_plus_1 |-> SameAs(D), same_as_A_with_seed_plus_2_32 |-> SameAs(E)])>>) /\ FALSE
 =============================================================================
